@@ -750,6 +750,27 @@ def rule_intrinsic_modifiers(chk):
            if bad is None else bad, where(gm), sample={"methods": n_methods, "out_params": n_out})
     chk.floor("C03.floor/intrinsic-methods", n_methods, 100, "built-in object methods read", where(gm))
     chk.floor("C03.floor/intrinsic-out-params", n_out, 40, "out / inout parameters in the method tables", where(gm))
+    # wherever a signature parameter is built from a table entry (free intrinsics too): modifier and type come from the same entry
+    n_sites = 0
+    for b in f.crates.get("rssl_ir", {}).get("bodies", []):
+        if "thir" not in b or "intrinsic_data" not in b["path"]:
+            continue
+        for a in F.exprs(b["thir"], "Adt"):
+            if short(a.get("adt") or "") != "ParamType":
+                continue
+            flds = {x["f"]: x["e"] for x in a.get("fields", [])}
+            if "input_modifier" not in flds or "type_id" not in flds:
+                continue
+            n_sites += 1
+            im = F.strip(flds["input_modifier"])
+            mv = F.leftmost_var(im)
+            from_entry = im.get("k") == "Field" and str(im.get("name")) == "1" and mv is not None
+            ty_vars = {v["id"] for v in F.exprs(flds["type_id"], "Var")}
+            ok = from_entry and mv["id"] in ty_vars
+            chk.ob("C03.out/intrinsic-entry/%s#%d" % (short(b.get("parent") or b["path"]), n_sites), ok,
+                   "the parameter's modifier and type are read from the same table entry" if ok else
+                   "a signature parameter is built with a modifier that is not the `.1` of the table entry its type comes from", where(b, a.get("ln")))
+    chk.floor("C03.floor/intrinsic-entry-sites", n_sites, 2, "ParamType constructions in intrinsic_data", "ir/src/intrinsic_data.rs")
     # the defaulting conversion is not used where signatures are built
     uses = []
     for path, b in f.bodies.items():
